@@ -7,7 +7,17 @@ CHECK = {'level': 'exploration',
          'batches; after every batch root == naive LIP-0039 recursion over the map; final map rebuilt in one batch on a fresh store; two-route '
          'histories (direct vs. insert-extras-then-delete) compared with each other; Prove/Verify on drawn query sets (present, absent near/far, '
          'duplicates) + Encode/Decode round trip + 1-4 single-field tamperings each; event-root call pattern (12-byte keys, raw values, one '
-         'Update); seed-expanded maps of 300-2000 keys. Non-trivial history = final map >= 2 keys and (a present key was deleted or two keys '
+         'Update); seed-expanded maps of 300-2000 keys; directed DENSE cases (TestDense, every kind in every tier): key families whose byte at one '
+         'level takes all 256 values under a common prefix so that an 8-bit subtree is completely expanded (256 nodes = count byte 255 in '
+         'the store: 256 leaves / 256 stubs / leaves+stubs+empty nodes), at the top level, at levels 1/2/3/6/L-2 and at the last key byte (all '
+         '256 last-byte siblings; L=1: the whole key space), nested 2-3 levels deep (also with a gap level), key lengths 1/2/4/12/32/38; '
+         '0-3 toggle keys per level put the subtree at 253-255 nodes first, a fill batch completes it, 2-4 further batches set/delete toggle '
+         'keys, extra keys in occupied slots (256 leaves + 1), last-bit siblings and base keys (255<->256 transitions in both directions), '
+         'with reopen; undirected large maps of 1500/2500 uniform keys and a 38-byte module-store shape (1200/2000 keys under one 6-byte '
+         'prefix) where the same happens by size; 300-900 events per block for the event-root pattern. In every dense state: model root, '
+         '1-16-key proofs around the dense region + one proof over the whole dense family, tamperings, one-batch rebuild, second route in '
+         'two sorted batches on another store. Non-trivial dense case = a 256-node subtree was read back from the store (by Prove or by a '
+         'later Update); labels record the count byte actually found in the store under the subtree root. Non-trivial history = final map >= 2 keys and (a present key was deleted or two keys '
          'share >= 8 leading bits); non-trivial proof/tamper case = query set with both present and absent keys. Distinct by digest of the '
          'full history / query set / tampering',
  'level_text': 'Differential test of trie.Update against an independent naive LIP-0039 root (recursion over key bits, no subtrees) after every '
